@@ -243,6 +243,18 @@ func (u *Unmarshaler) fillSliceFromString(fieldType reflect.Type, value reflect.
 	conv := reflect.MakeSlice(reflect.SliceOf(baseFieldType), len(slice), cap(slice))
 
 	for i := 0; i < len(slice); i++ {
+		if slice[i] == nil {
+			continue
+		}
+
+		if baseFieldKind == reflect.Slice {
+			if err := u.fillSlice(Deref(baseFieldType), ensureValue(conv.Index(i)), slice[i]); err != nil {
+				return err
+			}
+
+			continue
+		}
+
 		if err := u.fillSliceValue(conv, i, baseFieldKind, slice[i]); err != nil {
 			return err
 		}
@@ -261,10 +273,11 @@ func (u *Unmarshaler) fillSliceValue(slice reflect.Value, index int,
 	case string:
 		return setValue(baseKind, ithVal, v)
 	case map[string]any:
-		if ithVal.Kind() != reflect.Map {
+		if Deref(ithVal.Type()).Kind() != reflect.Map {
 			return errTypeMismatch
 		}
 
+		ithVal = ensureValue(ithVal)
 		return u.fillMap(ithVal.Type(), ithVal, value)
 	default:
 		// don't need to consider the difference between int, int8, int16, int32, int64,
@@ -325,6 +338,16 @@ func (u *Unmarshaler) generateMap(keyType, elemType reflect.Type, mapValue any) 
 	dereffedElemType := Deref(elemType)
 	dereffedElemKind := dereffedElemType.Kind()
 
+	// setElem 存入一个元素；元素类型为指针时存入其地址
+	setElem := func(key, elem reflect.Value) {
+		if fieldElemKind == reflect.Ptr {
+			target := reflect.New(dereffedElemType)
+			target.Elem().Set(elem)
+			elem = target
+		}
+		targetValue.SetMapIndex(key, elem)
+	}
+
 	for _, key := range refValue.MapKeys() {
 		keythValue := refValue.MapIndex(key)
 		keythData := keythValue.Interface()
@@ -363,12 +386,16 @@ func (u *Unmarshaler) generateMap(keyType, elemType reflect.Type, mapValue any) 
 				return emptyValue, errTypeMismatch
 			}
 
-			innerValue, err := u.generateMap(elemType.Key(), elemType.Elem(), keythMap)
+			innerValue, err := u.generateMap(dereffedElemType.Key(), dereffedElemType.Elem(), keythMap)
 			if err != nil {
 				return emptyValue, err
 			}
 
-			targetValue.SetMapIndex(key, innerValue)
+			if !innerValue.Type().AssignableTo(dereffedElemType) {
+				return emptyValue, errTypeMismatch
+			}
+
+			setElem(key, innerValue)
 		default:
 			switch v := keythData.(type) {
 			case bool:
@@ -376,20 +403,20 @@ func (u *Unmarshaler) generateMap(keyType, elemType reflect.Type, mapValue any) 
 					return emptyValue, errTypeMismatch
 				}
 
-				targetValue.SetMapIndex(key, reflect.ValueOf(v))
+				setElem(key, reflect.ValueOf(v).Convert(dereffedElemType))
 			case string:
 				if dereffedElemKind != reflect.String {
 					return emptyValue, errTypeMismatch
 				}
 
-				targetValue.SetMapIndex(key, reflect.ValueOf(v))
+				setElem(key, reflect.ValueOf(v).Convert(dereffedElemType))
 			case json.Number:
 				target := reflect.New(dereffedElemType)
 				if err := setValue(dereffedElemKind, target.Elem(), v.String()); err != nil {
 					return emptyValue, err
 				}
 
-				targetValue.SetMapIndex(key, target.Elem())
+				setElem(key, target.Elem())
 			default:
 				if dereffedElemKind != keythValue.Kind() {
 					return emptyValue, errTypeMismatch
@@ -512,6 +539,15 @@ func (u *Unmarshaler) processFieldNotFromString(fieldType reflect.Type, value re
 	typeKind := derefedFieldType.Kind()
 	valueKind := reflect.TypeOf(vp.value).Kind()
 	mapValue := vp.value
+	if fieldType.Kind() == reflect.Ptr && (typeKind == reflect.Slice || typeKind == reflect.Map) {
+		// 指向切片/字典的指针字段：填充其指向的容器
+		if !value.CanSet() {
+			return errValueNotSettable
+		}
+
+		value = ensureValue(value)
+		fieldType = derefedFieldType
+	}
 
 	switch {
 	case valueKind == reflect.Map && typeKind == reflect.Struct:
